@@ -160,6 +160,10 @@ func (env *aareEnv) expandVars(p string, depth int) ([]string, error) {
 	}
 	res := []string{}
 	for _, v := range vals {
+		// a quoted value stands for the text between its quotes
+		if len(v) > 1 && strings.HasPrefix(v, "\"") && strings.HasSuffix(v, "\"") {
+			v = v[1 : len(v)-1]
+		}
 		rest, err := env.expandVars(p[:i]+v+p[i+j+1:], depth+1)
 		if err != nil {
 			return nil, err
